@@ -2,6 +2,7 @@ import NGF.Proofs.Hostname
 import NGF.Proofs.Precedence
 import NGF.Proofs.NginxEval
 import NGF.Proofs.Locations
+import NGF.Generated.RoutingFacts
 /-
 C02 — requests are routed exactly as the attached Routes prescribe: property theorems about the cores the
 driver runs (Model/Hostname, Model/Precedence, Model/NginxEval). The end-to-end refinement
@@ -271,5 +272,227 @@ theorem grpc_convert_shared_not_faithful :
   decide
 
 end grpc
+
+/-! ### the location scheme against NGINX's location selection (`location_select_correct`) -/
+section locations
+open NGF.Precedence NGF.NginxEval NGF.Locations
+
+/-- the exact location `= p`, once generated, is what NGINX selects for the request path `p` -/
+theorem location_exact_selected {rules : List PathRule} {p : List Char} {i : Nat}
+    (hg : (⟨true, p, i⟩ : GenLoc) ∈ genLocs rules) :
+    ∃ l, selectLoc (locsOf rules) p = .loc l ∧ l.exact = true ∧ l.path = p := by
+  have hmem : toLoc ⟨true, p, i⟩ ∈ locsOf rules := List.mem_map.mpr ⟨_, hg, rfl⟩
+  cases hf : (locsOf rules).find? (fun l => l.exact && l.path == p) with
+  | none =>
+    have := List.find?_eq_none.mp hf _ hmem
+    simp [toLoc] at this
+  | some l =>
+    obtain ⟨l', h1, h2⟩ := select_exact_first hf
+    subst h2
+    have := List.find?_some hf
+    simp only [Bool.and_eq_true, beq_iff_eq] at this
+    exact ⟨l', h1, this.1, this.2⟩
+
+/-- Exact over prefix: the request path of an Exact rule is served by an exact location. -/
+theorem location_select_exact_rule {rules : List PathRule} {i : Nat} {p : List Char}
+    (h : rules[i]? = some ⟨p, false⟩) : ∃ l, selectLoc (locsOf rules) p = .loc l ∧ l.exact = true ∧ l.path = p :=
+  location_exact_selected (exact_rule_has_location h)
+
+/-- A PathPrefix rule `/p` (no trailing slash) serves the request `/p` itself: NGINX selects `location = /p`, which
+belongs to this rule unless an Exact rule for `/p` exists (then to that one: exact over prefix). -/
+theorem location_select_prefix_rule_bare {rules : List PathRule} {i : Nat} {p : List Char}
+    (h : rules[i]? = some ⟨p, true⟩) (hs : endsSlash p = false) :
+    (∃ l, selectLoc (locsOf rules) p = .loc l ∧ l.exact = true ∧ l.path = p) ∧
+    ((hasExact rules p = false ∧ (⟨true, p, i⟩ : GenLoc) ∈ genLocs rules) ∨
+     (hasExact rules p = true ∧ ∃ j, rules[j]? = some ⟨p, false⟩ ∧ (⟨true, p, j⟩ : GenLoc) ∈ genLocs rules)) := by
+  have hb := prefix_rule_bare_path h hs
+  refine ⟨?_, hb⟩
+  rcases hb with ⟨_, hg⟩ | ⟨_, j, _, hg⟩ <;> exact location_exact_selected hg
+
+/-- … and its subtree `/p/…`: `location /p/` exists (owned by the rule, or by the `/p/` prefix rule if there is one),
+and when NGINX falls through to prefix selection it takes the LONGEST generated prefix location that is a prefix of
+the request — longer prefix first. -/
+theorem location_select_prefix_rule_subtree {rules : List PathRule} {i : Nat} {p : List Char}
+    (h : rules[i]? = some ⟨p, true⟩) (hs : endsSlash p = false) (q : List Char) (w : Loc)
+    (hsel : selectLoc (locsOf rules) q = .loc w) (hne : w.exact = false) (hsub : (p ++ ['/']) <+: q) :
+    (∃ j, (⟨false, p ++ ['/'], j⟩ : GenLoc) ∈ genLocs rules) ∧ w.path <+: q ∧
+    (w.path = q ∨ (p ++ ['/']).length ≤ w.path.length) := by
+  obtain ⟨j, hj, _⟩ := prefix_rule_subtree h hs
+  have hsound := select_sound hsel
+  rcases hsound.2 with ⟨he, _⟩ | ⟨_, hpre⟩
+  · rw [he] at hne; cases hne
+  refine ⟨⟨j, hj⟩, hpre, ?_⟩
+  -- which branch of selectLoc produced w?
+  unfold selectLoc at hsel
+  cases h1 : (locsOf rules).find? (fun l => l.exact && l.path == q) with
+  | some a =>
+    rw [h1] at hsel; simp only [LocChoice.loc.injEq] at hsel; subst hsel
+    have := List.find?_some h1; simp [hne] at this
+  | none =>
+    rw [h1] at hsel
+    cases h2 : (locsOf rules).find? (fun l => !l.exact && l.path == q) with
+    | some a =>
+      rw [h2] at hsel; simp only [LocChoice.loc.injEq] at hsel; subst hsel
+      have := List.find?_some h2
+      simp only [Bool.and_eq_true, beq_iff_eq] at this
+      exact Or.inl this.2
+    | none =>
+      rw [h2] at hsel
+      cases h3 : (locsOf rules).find? (fun l => !l.exact && l.passes && l.path == q ++ ['/']) with
+      | some a => rw [h3] at hsel; cases hsel
+      | none =>
+        rw [h3] at hsel
+        cases h4 : bestPrefix q (locsOf rules) with
+        | none => rw [h4] at hsel; cases hsel
+        | some b =>
+          rw [h4] at hsel; simp only [LocChoice.loc.injEq] at hsel; subst hsel
+          right
+          have hmem : toLoc ⟨false, p ++ ['/'], j⟩ ∈ locsOf rules := List.mem_map.mpr ⟨_, hj, rfl⟩
+          exact (bestPrefix_some h4).2.2.2 _ hmem rfl hsub
+
+/-- a prefix rule `/p` is not reached by `/px`: no location generated for a prefix rule is selected for a sibling
+path, because every generated prefix location ends in `/` -/
+theorem location_select_not_sibling {rules : List PathRule} {p rest : List Char} {c : Char} (hc : c ≠ '/')
+    {l : Loc} (hsel : selectLoc (locsOf rules) (p ++ c :: rest) = .loc l) :
+    ¬ (l.exact = true ∧ l.path = p) ∧ l.path ≠ p ++ ['/'] ∧ (l.exact = false → endsSlash l.path = true) := by
+  have hs := select_sound hsel
+  refine ⟨?_, ?_, ?_⟩
+  · rintro ⟨he, hp⟩
+    rcases hs.2 with ⟨_, h⟩ | ⟨h, _⟩
+    · rw [hp] at h
+      have := congrArg List.length h; simp at this
+    · rw [he] at h; cases h
+  · intro hp
+    rcases hs.2 with ⟨_, h⟩ | ⟨_, h⟩
+    · rw [hp] at h
+      have := List.append_cancel_left h; simp at this; exact hc this.1.symm
+    · rw [hp] at h; exact not_subtree_of_other_char p rest c hc h
+  · intro hne
+    obtain ⟨g, hg, rfl⟩ := List.mem_map.mp hs.1
+    exact nonexact_ends_slash hg hne
+
+/-- The excluded region of the full statement (known finding `C02:prefix-with-trailing-slash-misses-bare-path`): a
+PathPrefix rule whose value ends in `/` is not reached by the bare path. Gateway API: `/coffee/` matches `/coffee`. -/
+theorem location_trailing_slash_witness :
+    (match selectLoc (locsOf [⟨"/coffee/".toList, true⟩]) "/coffee".toList with
+     | .loc l => l.path != "/coffee/".toList
+     | .autoRedirect _ => true       -- 301 to /coffee/ when the location proxies
+     | .none => true) = true := by decide
+
+example : (genLocs [⟨"/coffee".toList, true⟩, ⟨"/coffee".toList, false⟩, ⟨"/".toList, true⟩]).map (fun g => (g.exact, String.ofList g.path, g.rule))
+    = [(false, "/coffee/", 0), (true, "/coffee", 1), (false, "/", 2)] := by decide
+
+end locations
+
+/-! ### regenerated facts: the source text the models mirror (NGF/Generated/RoutingFacts.lean, rewritten from the
+current /repo on every run). A changed statement breaks the expectation lemma next to the model it pins. -/
+section facts
+open NGF.Generated.Routing
+
+/-- `higherPriority` is the chain Model/Precedence.higherPriority mirrors -/
+theorem facts_higherPriority : higherPriorityStmts =
+  ["if rule1.Match.Method != nil && rule2.Match.Method == nil { return true }",
+   "if rule2.Match.Method != nil && rule1.Match.Method == nil { return false }",
+   "l1 := len(rule1.Match.Headers)",
+   "l2 := len(rule2.Match.Headers)",
+   "if l1 != l2 { return l1 > l2 }",
+   "l1 = len(rule1.Match.QueryParams)",
+   "l2 = len(rule2.Match.QueryParams)",
+   "if l1 != l2 { return l1 > l2 }",
+   "return ngfsort.LessObjectMeta(rule1.Source, rule2.Source)"] := rfl
+
+/-- `sortMatchRules` uses the STABLE sort (`sort_is_precedence` models a stable sort) -/
+theorem facts_sort_is_stable : sortMatchRulesSortFn = "sort.SliceStable" := rfl
+
+theorem facts_lessObjectMeta : lessObjectMetaStmts =
+  ["if meta1.CreationTimestamp.Equal(&meta2.CreationTimestamp) { if meta1.Namespace == meta2.Namespace { return meta1.Name < meta2.Name } return meta1.Namespace < meta2.Namespace }",
+   "return meta1.CreationTimestamp.Before(&meta2.CreationTimestamp)"] := rfl
+
+/-- `match` (Model/Hostname.hmatch, wildcardMatch) -/
+theorem facts_match : matchStmts =
+  ["if listenerHost == \"\" { return true }",
+   "if routeHost == listenerHost { return true }",
+   "wildcardMatch := func(host1, host2 string) bool { return strings.HasPrefix(host1, \"*.\") && strings.HasSuffix(host2, strings.TrimPrefix(host1, \"*\")) }",
+   "if wildcardMatch(listenerHost, routeHost) { return true }",
+   "return wildcardMatch(routeHost, listenerHost)"] := rfl
+
+/-- `GetMoreSpecificHostname` (Model/Hostname.moreSpecific) -/
+theorem facts_getMoreSpecificHostname : getMoreSpecificHostnameStmts =
+  ["if hostname1 == hostname2 { return hostname1 }",
+   "if hostname1 == \"\" { return hostname2 }",
+   "if hostname2 == \"\" { return hostname1 }",
+   "if strings.HasPrefix(hostname1, \"*.\") { if strings.HasPrefix(hostname2, \"*.\") { subdomains1 := strings.Split(hostname1, \".\") subdomains2 := strings.Split(hostname2, \".\") if len(subdomains1) > len(subdomains2) { return hostname1 } return hostname2 } return hostname2 }",
+   "if strings.HasPrefix(hostname2, \"*.\") { return hostname1 }",
+   "return \"\""] := rfl
+
+/-- `findAcceptedHostnames` (Model/Hostname.accepted) -/
+theorem facts_findAcceptedHostnames : findAcceptedHostnamesStmts =
+  ["hostname := getHostname(listenerHostname)",
+   "if len(routeHostnames) == 0 { if hostname == \"\" { return []string{wildcardHostname} } return []string{hostname} }",
+   "var result []string",
+   "for _, h := range routeHostnames { routeHost := string(h) if match(hostname, routeHost) { result = append(result, GetMoreSpecificHostname(hostname, routeHost)) } }",
+   "return result"] := rfl
+
+/-- the catch-all server name is the one the models use -/
+theorem facts_wildcardHostname :
+    graphWildcardHostname = String.ofList NGF.Hostname.wildcardHostname ∧
+    dataplaneWildcardHostname = String.ofList NGF.NginxEval.catchAll := by decide
+
+/-- attachment reads the parentRef's sectionName and the listener's allowedRoutes.namespaces -/
+theorem facts_attachment :
+    validateParentRefSectionArg = "getSectionName(ref.SectionName)" ∧
+    isRouteNamespaceAllowedStmts =
+      ["if listener.Source.AllowedRoutes != nil && listener.Source.AllowedRoutes.Namespaces != nil { switch *listener.Source.AllowedRoutes.Namespaces.From { case v1.NamespacesFromAll: return true case v1.NamespacesFromSame: return routeNS == gwNS case v1.NamespacesFromSelector: if listener.AllowedRouteLabelSelector == nil { return false } ns, exists := namespaces[types.NamespacedName{Name: routeNS}] if !exists { panic(fmt.Errorf(\"route namespace %q not found in map\", routeNS)) } return listener.AllowedRouteLabelSelector.Matches(labels.Set(ns.Labels)) } }",
+       "return true"] ∧
+    findAttachableListenersStmts =
+      ["if sectionName != \"\" { for _, l := range listeners { if l.Name == sectionName { if l.Attachable { return []*Listener{l}, true } return nil, true } } return nil, false }",
+       "attachableListeners := make([]*Listener, 0, len(listeners))",
+       "for _, l := range listeners { if !l.Attachable { continue } attachableListeners = append(attachableListeners, l) }",
+       "return attachableListeners, true"] :=
+  ⟨rfl, rfl, rfl⟩
+
+/-- `ConvertGRPCMatches` keeps the path value and type per match (the repair of DESIGN §7 row 3) -/
+theorem facts_grpc_convert_per_iteration : grpcPathVarsPerIteration = true := rfl
+
+/-- the location scheme Model/Precedence.genLocs mirrors -/
+theorem facts_location_scheme :
+    exactPathFmt = "= %s" ∧ internalLocationFmt = "%s-rule%d-route%d" ∧ internalRoutePathPrefix = "/_ngf-internal" ∧
+    isNonSlashedPrefixPathStmts = ["return pathType == dataplane.PathTypePrefix && !strings.HasSuffix(path, \"/\")"] ∧
+    createPathStmts = ["switch rule.PathType { case dataplane.PathTypeExact: return exactPath(rule.Path) default: return rule.Path }"] :=
+  ⟨rfl, rfl, rfl, rfl, rfl⟩
+
+theorem facts_initializeExternalLocations : initializeExternalLocationsStmts =
+  ["extLocations := make([]http.Location, 0, 2)",
+   "locType := getLocationTypeForPathRule(rule)",
+   "externalLocPath := createPath(rule)",
+   "if isNonSlashedPrefixPath(rule.PathType, externalLocPath) { _, exactPathExists := pathsAndTypes[rule.Path][dataplane.PathTypeExact] var trailingSlashPrefixPathExists bool if pathTypes, exists := pathsAndTypes[rule.Path+\"/\"]; exists { _, trailingSlashPrefixPathExists = pathTypes[dataplane.PathTypePrefix] } if exactPathExists && trailingSlashPrefixPathExists { return []http.Location{} } if !trailingSlashPrefixPathExists { externalLocTrailing := http.Location{ Path: externalLocPath + \"/\", Type: locType, } extLocations = append(extLocations, externalLocTrailing) } if !exactPathExists { externalLocExact := http.Location{ Path: exactPath(externalLocPath), Type: locType, } extLocations = append(extLocations, externalLocExact) } } else { externalLoc := http.Location{ Path: externalLocPath, Type: locType, } extLocations = []http.Location{externalLoc} }",
+   "return extLocations"] := rfl
+
+/-- when a path rule goes through the njs matcher, and which upstream a backend group names -/
+theorem facts_internal_locations_and_groups :
+    needsInternalLocationsStmts = ["if len(rule.MatchRules) > 1 { return true }",
+      "return len(rule.MatchRules) == 1 && !isPathOnlyMatch(rule.MatchRules[0].Match)"] ∧
+    isPathOnlyMatchStmts = ["return match.Method == nil && len(match.Headers) == 0 && len(match.QueryParams) == 0"] ∧
+    backendGroupNameStmts = ["switch len(group.Backends) { case 0: return invalidBackendRef case 1: b := group.Backends[0] if b.Weight == 0 || !b.Valid { return invalidBackendRef } return b.UpstreamName default: return group.Name() }"] ∧
+    invalidBackendRef = "invalid-backend-ref" ∧ backendGroupNameFmt = "group_%s__%s_rule%d" ∧
+    servicePortReferenceFmt = "%s_%s_%d" ∧ headerMatchSeparator = ":" :=
+  ⟨rfl, rfl, rfl, rfl, rfl, rfl, rfl⟩
+
+/-- the gRPC flag handed to internal locations: the server-accumulated `grpc` (known finding, DESIGN §7 row 22) or,
+once repaired, the rule's own flag -/
+theorem facts_internal_location_grpc_arg :
+    initializeInternalLocationArgs.length = 4 ∧
+    (initializeInternalLocationArgs.getLast? = some "grpc" ∨ initializeInternalLocationArgs.getLast? = some "rule.GRPC") := by
+  decide
+
+/-- httpmatches.js: the first satisfied match of the list wins; any, then method, headers, params; header values are
+compared against the comma-separated request values; the first value of a repeated query parameter counts -/
+theorem facts_njs :
+    njsTestMatchOrder = ["match.any", "match.method", "match.headers", "match.params"] ∧
+    njsFindWinningIsFirstMatch = true ∧ njsHeaderSplitColon = true ∧ njsHeaderValuesSplitComma = true ∧
+    njsParamsFirstValue = true ∧ njsParamsFirstEquals = true := by
+  decide
+
+end facts
 
 end NGF.Props.C02
